@@ -408,16 +408,23 @@ def run(sc) -> RunResult:
             srandom.use_deterministic_prng(False)
             res.hit("prng:python_random")
         seam.install()
-        builder = segmentation.SegmentationBuilder2D(
-            h,
-            w,
-            min_num_blocks=sc["min_num"],
-            max_num_blocks=sc["max_num"],
-            min_block_size=sc["min_size"],
-            max_block_size=sc["max_size"],
-            allow_unmet_constraints_first=sc["allow_unmet"],
-            initial_blocks=init_blocks,
-        )
+        try:
+            builder = segmentation.SegmentationBuilder2D(
+                h,
+                w,
+                min_num_blocks=sc["min_num"],
+                max_num_blocks=sc["max_num"],
+                min_block_size=sc["min_size"],
+                max_block_size=sc["max_size"],
+                allow_unmet_constraints_first=sc["allow_unmet"],
+                initial_blocks=init_blocks,
+            )
+        except ValueError as e:
+            # a configuration rejected at construction: no value is ever returned, the property is silent
+            res.inconclusive = True
+            res.hit("inconclusive:configuration_rejected_at_construction")
+            res.log("construct", "rejected", str(e)[:60])
+            return res
         intr = sc.get("interrupt")
         try:
             if intr and intr["phase"] == "initial":
